@@ -21,6 +21,8 @@ def rule_dec_release(ctx, rep):
 
 
 def _release_order(F, E, rep, tag):
+    from . import c03
+
     if True:
         # R-ORD-2/3/6 on every release unit (the body with the direct decrement, private helpers inlined, or the caller it
         # reports its verdict to)
@@ -66,6 +68,15 @@ def _release_order(F, E, rep, tag):
                     nfree += 1
                     acq = dec_ord in ("AcqRel", "SeqCst")
                     for e in ev[i_dec + 1 : i_free]:
+                        if e["kind"] == "CALL" and isinstance(e["detail"], dict):
+                            # the load spelled as a call of the crate's own accessor (`Arc::count(self)`: returns `count.load(Acquire)`)
+                            G = F.__dict__.get("_c02_gates")
+                            if G is None:
+                                G = F.__dict__["_c02_gates"] = c03.Gates(F)
+                            tt = unit["blocks"][e["bb"]]["term"]
+                            callee = e["detail"].get("callee")
+                            if callee in G.loaders and tt["k"] == "call" and atomics.resolve_ordering(G.loaders[callee], UB, tt) in atomics.ACQUIRE_OK:
+                                acq = True
                         if e["kind"] in ("LOAD", "FENCE"):
                             tt = unit["blocks"][e["bb"]]["term"]
                             cls2 = atomics.atomic_class(tt)
